@@ -6,6 +6,7 @@ import (
 	"fmt"
 	"os"
 	"strconv"
+	"runtime/pprof"
 
 	"gosmt/driver"
 )
@@ -33,6 +34,13 @@ func main() {
 		fmt.Fprintln(os.Stderr, "unknown property", id)
 		os.Exit(2)
 	}
+	if pf := os.Getenv("GOSMT_PROF"); pf != "" {
+		f, _ := os.Create(pf)
+		pprof.StartCPUProfile(f)
+		defer pprof.StopCPUProfile()
+	}
 	r := &driver.Runner{Prop: p, Tier: *tier, Seed: seed, Known: driver.LoadKnown(), Cores: *cores, Only: *only}
-	os.Exit(r.Run())
+	code := r.Run()
+	pprof.StopCPUProfile()
+	os.Exit(code)
 }
